@@ -80,7 +80,8 @@ Section Prog.
   Hypothesis WFp : prog_wf p = true.
   Let U := universe p.
   Let G := globals p.
-  Let m := emit_mem true true p.
+  Variable swc : bool.          (* sw_stmt_cond: either shape of lower_inst *)
+  Let m := emit_mem true true swc p.
 
   Lemma wf_parts :
     NoDup U /\ (forall x, In x (initable p) -> In x G) /\ NoDup (initable p) /\
@@ -124,7 +125,7 @@ Section Prog.
     end.
 
   Lemma run_func_K v ph st :
-    In ph (phases p) -> K st -> Kpost (run_func v (emit_phase true true G ph) st).
+    In ph (phases p) -> K st -> Kpost (run_func v (emit_phase true true swc G ph) st).
   Proof.
     intros Hp (I & KL & KG).
     pose proof wf_parts as (_ & _ & _ & Hph). specialize (Hph ph Hp).
@@ -149,7 +150,7 @@ Section Prog.
         apply memv_false in M. apply in_app_or in Hx. destruct Hx as [Hx|Hx]; [|contradiction].
         rewrite Hv1 in Vx. apply (KG x Hx Dx Vx).
       - intros y Hy. rewrite Hv1. apply KL. intros Hg. apply Hy. apply in_or_app. now left. }
-    pose proof (node_ok U G locs all ND HscU Hnd Hst v (ph_body ph) false [] [] [] st1
+    pose proof (node_ok U G locs all ND HscU Hnd Hst v swc (ph_body ph) false [] [] [] [] st1
                         ltac:(cbn; now rewrite app_nil_r) ltac:(intros i []) HInv) as Hbody.
     (* label 999 *)
     assert (Hlabel : forall st2, Q U G locs st2 ->
@@ -163,7 +164,7 @@ Section Prog.
         apply Nn. cbn. apply O2. intros Hs. apply in_app_or in Hs. tauto.
       - intros g Hg Dg. rewrite Fr by (intros Hl; eapply locals_not_G; eauto).
         rewrite D3 in Dg. apply (J2 g Hg Dg). }
-    destruct (run_code v (emit_node true G (last_tbl all) false (ph_body ph)) st1) as [st2|st2|st2|f st2];
+    destruct (run_code v (emit_node true swc G (last_tbl all) false (ph_body ph)) [] st1) as [st2|st2|st2|f st2];
       cbn [post] in Hbody.
     - apply Hlabel. apply (Inv_Q U G locs all _ _ Hbody).
     - apply Hlabel. exact Hbody.
@@ -283,135 +284,136 @@ Section Prog.
   Qed.
 End Prog.
 
-(* ------------------------------------------------------------------ the statements, for both shapes *)
-Definition invariant_stmt (sw_exit sw_loop : bool) : Prop :=
+(* ------------------------------------------------------------------ the statements, for all shapes *)
+Definition invariant_stmt (sw_exit sw_loop sw_cond : bool) : Prop :=
   forall p present h, prog_wf p = true ->
-    let r := run_mem (emit_mem sw_exit sw_loop p) present h in
+    let r := run_mem (emit_mem sw_exit sw_loop sw_cond p) present h in
     (forall f st, r = HFault f st -> exists x, f = SrcUndefined x) /\
     refcount_inv (universe p) (final_state r).
 
-Definition no_leak_stmt (sw_exit sw_loop : bool) : Prop :=
+Definition no_leak_stmt (sw_exit sw_loop sw_cond : bool) : Prop :=
   forall p present h st reps, prog_wf p = true ->
-    run_mem (emit_mem sw_exit sw_loop p) present h = HDone st reps ->
+    run_mem (emit_mem sw_exit sw_loop sw_cond p) present h = HDone st reps ->
     live_blocks st = [] /\ reps = [].
 
-Definition free_once_stmt (sw_exit sw_loop : bool) : Prop :=
+Definition free_once_stmt (sw_exit sw_loop sw_cond : bool) : Prop :=
   forall p present h st reps, prog_wf p = true ->
-    run_mem (emit_mem sw_exit sw_loop p) present h = HDone st reps ->
+    run_mem (emit_mem sw_exit sw_loop sw_cond p) present h = HDone st reps ->
     forall b, count_occ Nat.eq_dec (frees st) b = if Nat.ltb b (nxt st) then 1 else 0.
 
-Lemma invariant_holds sw_exit sw_loop :
-  sw_exit = true -> sw_loop = true -> invariant_stmt sw_exit sw_loop.
-Proof. intros -> -> p present h W. exact (invariant_fixed p W present h). Qed.
+(* the third switch (does lower_inst honour statement.condition) is free: with either shape the
+   emitted operations keep the protocol *)
+Lemma invariant_holds sw_exit sw_loop sw_cond :
+  sw_exit = true -> sw_loop = true -> invariant_stmt sw_exit sw_loop sw_cond.
+Proof. intros -> -> p present h W. exact (invariant_fixed p W sw_cond present h). Qed.
 
-Lemma no_leak_holds sw_exit sw_loop :
-  sw_exit = true -> sw_loop = true -> no_leak_stmt sw_exit sw_loop.
-Proof. intros -> -> p present h st reps W. exact (no_leak_fixed p W present h st reps). Qed.
+Lemma no_leak_holds sw_exit sw_loop sw_cond :
+  sw_exit = true -> sw_loop = true -> no_leak_stmt sw_exit sw_loop sw_cond.
+Proof. intros -> -> p present h st reps W. exact (no_leak_fixed p W sw_cond present h st reps). Qed.
 
-Lemma free_once_holds sw_exit sw_loop :
-  sw_exit = true -> sw_loop = true -> free_once_stmt sw_exit sw_loop.
-Proof. intros -> -> p present h st reps W. exact (free_once_fixed p W present h st reps). Qed.
+Lemma free_once_holds sw_exit sw_loop sw_cond :
+  sw_exit = true -> sw_loop = true -> free_once_stmt sw_exit sw_loop sw_cond.
+Proof. intros -> -> p present h st reps W. exact (free_once_fixed p W sw_cond present h st reps). Qed.
 
 (* ------------------------------------------------------------------ Part E: witnesses
-   (the structured trees the real generator produced for the programs of corpus/C12/refuted_*.json;
+   (the structured trees the real generator produced for the programs of corpus/C12/*.json;
     variable and statement numbering as harness/c12.py assigns it) *)
 
 (* tmp <- f(0, <state>y); if <t> > 0: fail_step; <state>y <- tmp        0 = <state>y, 1 = tmp *)
 Definition wit_early_exit : prog :=
   mkProg [0] [0] 0 [mkPhase 0 0 [1] (NBlock [
-    NStmt (mkStmt 0 (KAlloc []) [] [] true);
-    NBlock [NStmt (mkStmt 1 (KAlloc []) [] [] true); NStmt (mkStmt 2 (KAlloc [1]) [0] [0; 1] true)];
-    NIfT (GAtom 0) (NStmt (mkStmt 3 (KExit XFail) [] [] false));
-    NStmt (mkStmt 4 (KMove 0 1) [1] [0; 1] true)])].
+    NStmt (mkStmt 0 None (KAlloc []) [] [] true);
+    NBlock [NStmt (mkStmt 1 None (KAlloc []) [] [] true); NStmt (mkStmt 2 None (KAlloc [1]) [0] [0; 1] true)];
+    NIfT (GAtom 0) (NStmt (mkStmt 3 None (KExit XFail) [] [] false));
+    NStmt (mkStmt 4 None (KMove 0 1) [1] [0; 1] true)])].
 
 (* tmp <- f(0, <state>y); if <t> > 0: <state>y <- tmp   (last use under a guard that is false) *)
 Definition wit_guarded_last_use : prog :=
   mkProg [0] [0] 0 [mkPhase 0 0 [1] (NBlock [
-    NStmt (mkStmt 0 (KAlloc []) [] [] true);
-    NBlock [NStmt (mkStmt 1 (KAlloc []) [] [] true); NStmt (mkStmt 2 (KAlloc [1]) [0] [0; 1] true)];
-    NIfT (GAtom 0) (NStmt (mkStmt 3 (KMove 0 1) [1] [0; 1] true))])].
+    NStmt (mkStmt 0 None (KAlloc []) [] [] true);
+    NBlock [NStmt (mkStmt 1 None (KAlloc []) [] [] true); NStmt (mkStmt 2 None (KAlloc [1]) [0] [0; 1] true)];
+    NIfT (GAtom 0) (NStmt (mkStmt 3 None (KMove 0 1) [1] [0; 1] true))])].
 
 (* tmp <- f(0,<state>y); <state>y <- tmp; t2 <- f(0,<state>y); yield t2
    0 = <ret_state>y, 1 = <state>y, 2 = t2, 3 = tmp: YieldState emits no last-use deinit *)
 Definition wit_yield_local : prog :=
   mkProg [0; 1] [1] 0 [mkPhase 0 0 [2; 3] (NBlock [
-    NBlock [NStmt (mkStmt 0 (KAlloc []) [] [] true); NStmt (mkStmt 1 (KAlloc [3]) [1] [1; 3] true)];
-    NStmt (mkStmt 2 (KMove 1 3) [3] [1; 3] true);
-    NBlock [NStmt (mkStmt 3 (KAlloc []) [] [] true); NStmt (mkStmt 4 (KAlloc [2]) [1] [1; 2] true)];
-    NStmt (mkStmt 5 (KMove 0 2) [2] [2] false)])].
+    NBlock [NStmt (mkStmt 0 None (KAlloc []) [] [] true); NStmt (mkStmt 1 None (KAlloc [3]) [1] [1; 3] true)];
+    NStmt (mkStmt 2 None (KMove 1 3) [3] [1; 3] true);
+    NBlock [NStmt (mkStmt 3 None (KAlloc []) [] [] true); NStmt (mkStmt 4 None (KAlloc [2]) [1] [1; 2] true)];
+    NStmt (mkStmt 5 None (KMove 0 2) [2] [2] false)])].
 
 (* x <- f(0, <state>y); <state>y <- f(0, x) for i in [0,3)     0 = <state>y, 1 = tmp_1, 2 = x:
    the last statement that mentions x is inside the loop body *)
 Definition wit_loop : prog :=
   mkProg [0] [0] 0 [mkPhase 0 0 [1; 2] (NBlock [
-    NBlock [NStmt (mkStmt 0 (KAlloc []) [] [] true); NStmt (mkStmt 1 (KAlloc [2]) [0] [0; 2] true)];
+    NBlock [NStmt (mkStmt 0 None (KAlloc []) [] [] true); NStmt (mkStmt 1 None (KAlloc [2]) [0] [0; 2] true)];
     NFor 3 (NBlock [
-      NStmt (mkStmt 2 (KAlloc []) [] [] true);
-      NBlock [NStmt (mkStmt 3 (KAlloc [1]) [2] [1; 2] true); NStmt (mkStmt 4 (KMove 0 1) [1] [1; 0] true)]])])].
+      NStmt (mkStmt 2 None (KAlloc []) [] [] true);
+      NBlock [NStmt (mkStmt 3 None (KAlloc [1]) [2] [1; 2] true); NStmt (mkStmt 4 None (KMove 0 1) [1] [1; 0] true)]])])].
 
 (* u0 <- <state>z; <state>z <- u0 for i in [0,3); <state>z <- f(0, <state>z)
    0 = <state>z, 1 = temp__state_z, 2 = u0: the move inside the loop is the last mention of u0 *)
 Definition wit_loop_move : prog :=
   mkProg [0] [0] 0 [mkPhase 0 0 [1; 2] (NBlock [
-    NStmt (mkStmt 0 (KMove 2 0) [0] [0; 2] true);
-    NFor 3 (NStmt (mkStmt 1 (KMove 0 2) [2] [0; 2] true));
-    NBlock [NStmt (mkStmt 2 (KMove 1 0) [0] [0; 1] true);
-            NBlock [NStmt (mkStmt 3 (KAlloc []) [] [] true); NStmt (mkStmt 4 (KAlloc [0]) [1] [0; 1] true)]]])].
+    NStmt (mkStmt 0 None (KMove 2 0) [0] [0; 2] true);
+    NFor 3 (NStmt (mkStmt 1 None (KMove 0 2) [2] [0; 2] true));
+    NBlock [NStmt (mkStmt 2 None (KMove 1 0) [0] [0; 1] true);
+            NBlock [NStmt (mkStmt 3 None (KAlloc []) [] [] true); NStmt (mkStmt 4 None (KAlloc [0]) [1] [0; 1] true)]]])].
 
-Definition vT : nat -> bool := valuation [0].   (* the guard flag holds *)
-Definition vF : nat -> bool := valuation [].
+Definition vT : valn := fun _ => valuation [0].   (* the guard flag holds, in every trip *)
+Definition vF : valn := fun _ => valuation [].
 
 (* unrepaired exit label: a failed step leaks the temporary ... *)
-Lemma no_leak_refuted sw_loop : ~ no_leak_stmt false sw_loop.
+Lemma no_leak_refuted sw_loop sw_cond : ~ no_leak_stmt false sw_loop sw_cond.
 Proof.
   intros H.
-  destruct (run_mem (emit_mem false sw_loop wit_early_exit) [0] [vF; vT; vT]) as [st reps|st|f st] eqn:E.
+  destruct (run_mem (emit_mem false sw_loop sw_cond wit_early_exit) [0] [vF; vT; vT]) as [st reps|st|f st] eqn:E.
   - specialize (H wit_early_exit [0] [vF; vT; vT] st reps eq_refl E).
-    destruct sw_loop; vm_compute in E; injection E as <- <-; destruct H as [H _]; vm_compute in H;
+    destruct sw_loop, sw_cond; vm_compute in E; injection E as <- <-; destruct H as [H _]; vm_compute in H;
       discriminate.
-  - destruct sw_loop; vm_compute in E; discriminate.
-  - destruct sw_loop; vm_compute in E; discriminate.
+  - destruct sw_loop, sw_cond; vm_compute in E; discriminate.
+  - destruct sw_loop, sw_cond; vm_compute in E; discriminate.
 Qed.
 
 (* ... the numbers the model predicts for the four witnesses (blocks live after shutdown) *)
 Example leak_early_exit :
-  snd (fst (observe (run_mem (emit_mem false false wit_early_exit) [0] [vF; vT; vT]))) = 2.
+  snd (fst (observe (run_mem (emit_mem false false true wit_early_exit) [0] [vF; vT; vT]))) = 2.
 Proof. vm_compute. reflexivity. Qed.
 Example leak_guarded_last_use :
-  snd (fst (observe (run_mem (emit_mem false false wit_guarded_last_use) [0] [vF; vF; vT]))) = 2.
+  snd (fst (observe (run_mem (emit_mem false false true wit_guarded_last_use) [0] [vF; vF; vT]))) = 2.
 Proof. vm_compute. reflexivity. Qed.
 Example leak_yield_local :
-  snd (fst (observe (run_mem (emit_mem false false wit_yield_local) [1] [vF; vF; vF]))) = 3.
+  snd (fst (observe (run_mem (emit_mem false false true wit_yield_local) [1] [vF; vF; vF]))) = 3.
 Proof. vm_compute. reflexivity. Qed.
 
 (* unrepaired last-use deinit inside a loop body: the second trip reads a nullified pointer *)
-Lemma invariant_refuted sw_exit : ~ invariant_stmt sw_exit false.
+Lemma invariant_refuted sw_exit sw_cond : ~ invariant_stmt sw_exit false sw_cond.
 Proof.
   intros H. specialize (H wit_loop [0] [vF] eq_refl). cbn zeta in H. destruct H as [H _].
-  destruct sw_exit.
-  - destruct (H (UseNull 2) _ ltac:(vm_compute; reflexivity)) as [x Hx]. discriminate.
-  - destruct (H (UseNull 2) _ ltac:(vm_compute; reflexivity)) as [x Hx]. discriminate.
+  destruct sw_exit, sw_cond;
+    (destruct (H (UseNull 2) _ ltac:(vm_compute; reflexivity)) as [x Hx]; discriminate).
 Qed.
 
 (* the same defect seen through a move: the second trip moves from the nullified u0 (the real
    program then increments through u0's stale counter pointer: heap-use-after-free under ASan) *)
 Example loop_move_faults :
-  exists st, run_mem (emit_mem false false wit_loop_move) [0] [vF] = HFault (UseNull 2) st.
+  exists st, run_mem (emit_mem false false true wit_loop_move) [0] [vF] = HFault (UseNull 2) st.
 Proof. eexists. vm_compute. reflexivity. Qed.
 Example loop_move_fixed :
   exists st, prog_wf wit_loop_move = true /\
-             run_mem (emit_mem true true wit_loop_move) [0] [vF] = HDone st [] /\ live_blocks st = [].
+             run_mem (emit_mem true true true wit_loop_move) [0] [vF] = HDone st [] /\ live_blocks st = [].
 Proof. eexists. vm_compute. auto. Qed.
 
 (* every allocated block is released once: false as soon as one is never released *)
-Lemma free_once_refuted sw_loop : ~ free_once_stmt false sw_loop.
+Lemma free_once_refuted sw_loop sw_cond : ~ free_once_stmt false sw_loop sw_cond.
 Proof.
   intros H.
-  destruct (run_mem (emit_mem false sw_loop wit_early_exit) [0] [vF; vT; vT]) as [st reps|st|f st] eqn:E.
+  destruct (run_mem (emit_mem false sw_loop sw_cond wit_early_exit) [0] [vF; vT; vT]) as [st reps|st|f st] eqn:E.
   - specialize (H wit_early_exit [0] [vF; vT; vT] st reps eq_refl E 2).
-    destruct sw_loop; vm_compute in E; injection E as <- <-; vm_compute in H; discriminate.
-  - destruct sw_loop; vm_compute in E; discriminate.
-  - destruct sw_loop; vm_compute in E; discriminate.
+    destruct sw_loop, sw_cond; vm_compute in E; injection E as <- <-; vm_compute in H; discriminate.
+  - destruct sw_loop, sw_cond; vm_compute in E; discriminate.
+  - destruct sw_loop, sw_cond; vm_compute in E; discriminate.
 Qed.
 
 (* ------------------------------------------------------------------ non-vacuity: the witnesses are
@@ -423,21 +425,94 @@ Example wf_witnesses :
 Proof. vm_compute. auto. Qed.
 
 Example fixed_early_exit :
-  exists st, run_mem (emit_mem true true wit_early_exit) [0] [vF; vT; vT] = HDone st [] /\
+  exists st, run_mem (emit_mem true true true wit_early_exit) [0] [vF; vT; vT] = HDone st [] /\
              live_blocks st = [] /\ nxt st = 4 /\ length (frees st) = 4.
 Proof. eexists. vm_compute. auto. Qed.
 
 Example fixed_loop :
-  exists st, run_mem (emit_mem true true wit_loop) [0] [vF; vF] = HDone st [] /\
+  exists st, run_mem (emit_mem true true true wit_loop) [0] [vF; vF] = HDone st [] /\
              live_blocks st = [] /\ nxt st = 9 /\ length (frees st) = 9.
 Proof. eexists. vm_compute. auto. Qed.
 
 Example fixed_yield_local :
-  exists st, run_mem (emit_mem true true wit_yield_local) [1] [vF; vF; vF] = HDone st [] /\
+  exists st, run_mem (emit_mem true true true wit_yield_local) [1] [vF; vF; vF] = HDone st [] /\
              live_blocks st = [].
+Proof. eexists. vm_compute. auto. Qed.
+
+(* ------------------------------------------------------------------ statements that carry a condition
+   of their own (corpus/C12/cond_expr_in_loop.json, guarded_loop_last_use.json) *)
+
+(* k <- f(0, <state>y); w <- f(0, k if i > 1 else 2*k) for i in [0,4); <state>y <- w
+   0 = <state>y, 1 = ifthenelse_result, 2 = k, 3 = tmp_1, 4 = tmp_2, 5 = w; flag 0 = `i > 1`, assigned
+   in every trip.  Statements 4 and 5 are what expand_IfThenElse makes of the conditional expression;
+   5 is the last statement that mentions k. *)
+Definition wit_cond_loop : prog :=
+  mkProg [0] [0] 0 [mkPhase 0 0 [1; 2; 3; 4; 5] (NBlock [
+    NBlock [NStmt (mkStmt 0 None (KAlloc []) [] [] true); NStmt (mkStmt 1 None (KAlloc [2]) [0] [0; 2] true)];
+    NFor 4 (NBlock [
+      NStmt (mkStmt 2 None (KAlloc []) [] [] true);
+      NBlock [NStmt (mkStmt 3 None (KAlloc []) [] [] true);
+              NStmt (mkStmt 4 (Some (GAnd GTrue (GAtom 0))) (KMove 1 2) [2] [1; 2] true);
+              NStmt (mkStmt 5 (Some (GAnd GTrue (GNot (GAtom 0)))) (KAlloc [1]) [2] [1; 2] true);
+              NStmt (mkStmt 6 None (KMove 3 1) [1] [1; 3] true)];
+      NBlock [NStmt (mkStmt 7 None (KAlloc [4]) [3] [3; 4] true);
+              NStmt (mkStmt 8 None (KMove 5 4) [4] [4; 5] true)]]);
+    NStmt (mkStmt 9 None (KMove 0 5) [5] [0; 5] true)])].
+
+(* x <- f(0, <state>y); if <t> > 0: (<state>y <- f(0, x) for i in [0,3))      0 = <state>y, 1 = tmp_1,
+   2 = x; the tree is ForLoop(IfThen ...): the last mention of x is inside an `if` inside the loop *)
+Definition wit_guarded_loop : prog :=
+  mkProg [0] [0] 0 [mkPhase 0 0 [1; 2] (NBlock [
+    NStmt (mkStmt 0 None (KAlloc []) [] [] true);
+    NBlock [NStmt (mkStmt 1 None (KAlloc []) [] [] true); NStmt (mkStmt 2 None (KAlloc [2]) [0] [0; 2] true)];
+    NFor 3 (NIfT (GAtom 0) (NBlock [
+      NStmt (mkStmt 3 None (KAlloc []) [] [] true);
+      NBlock [NStmt (mkStmt 4 None (KAlloc [1]) [2] [1; 2] true);
+              NStmt (mkStmt 5 None (KMove 0 1) [1] [0; 1] true)]]))])].
+
+(* flag 0 holds in the trips with counter > 1 (a valuation that depends on the trip) *)
+Definition v_i_gt_1 : valn :=
+  fun ctx => match ctx with i :: _ => valuation (if Nat.ltb 1 i then [0] else []) | [] => valuation [] end.
+
+Example wf_cond_witnesses : prog_wf wit_cond_loop = true /\ prog_wf wit_guarded_loop = true.
+Proof. vm_compute. auto. Qed.
+
+(* the tree as it is: both programs complete, leak nothing, release each block once *)
+Example fixed_cond_loop :
+  exists st, run_mem (emit_mem true true true wit_cond_loop) [0] [v_i_gt_1; v_i_gt_1] = HDone st [] /\
+             live_blocks st = [] /\ length (frees st) = nxt st /\ nxt st = 15.
+Proof. eexists. vm_compute. auto. Qed.
+
+Example fixed_guarded_loop :
+  exists st, run_mem (emit_mem true true true wit_guarded_loop) [0] [vF; vT] = HDone st [] /\
+             live_blocks st = [] /\ length (frees st) = nxt st.
+Proof. eexists. vm_compute. auto. Qed.
+
+(* the last-use release emitted inside the loop (the shape that the seeded change C12_b re-creates for
+   these two programs): the release of k sits inside the `if` of statement 5, runs in trip 0, and trip 1
+   reads the nullified k; same for x under the guard *)
+Example cond_loop_unrepaired_faults :
+  exists st, run_mem (emit_mem true false true wit_cond_loop) [0] [v_i_gt_1] = HFault (UseNull 2) st.
+Proof. eexists. vm_compute. reflexivity. Qed.
+
+Example guarded_loop_unrepaired_faults :
+  exists st, run_mem (emit_mem true false true wit_guarded_loop) [0] [vT] = HFault (UseNull 2) st.
+Proof. eexists. vm_compute. reflexivity. Qed.
+
+(* ... and that release really is conditional: when the flag holds in every trip, statement 5 never
+   runs, nothing is released inside the loop and even that shape completes (k goes at the exit label) *)
+Example cond_stmt_release_is_conditional :
+  exists st, run_mem (emit_mem true false true wit_cond_loop) [0] [vT] = HDone st [] /\ live_blocks st = [].
+Proof. eexists. vm_compute. auto. Qed.
+
+(* lower_inst ignoring statement.condition (trees before 9d87c11): both statements run in every trip;
+   the protocol is kept all the same (the value computed is wrong, which is C03's business) *)
+Example cond_ignored_still_safe :
+  exists st, run_mem (emit_mem true true false wit_cond_loop) [0] [v_i_gt_1] = HDone st [] /\
+             live_blocks st = [] /\ length (frees st) = nxt st.
 Proof. eexists. vm_compute. auto. Qed.
 
 (* a source program that reads a variable it never assigned is reported as the SOURCE's fault *)
 Example src_undefined_is_classified :
-  exists st, run_mem (emit_mem true true wit_early_exit) [] [vF] = HFault (SrcUndefined 0) st.
+  exists st, run_mem (emit_mem true true true wit_early_exit) [] [vF] = HFault (SrcUndefined 0) st.
 Proof. eexists. vm_compute. reflexivity. Qed.
